@@ -26,3 +26,20 @@ import "github.com/orda-io/orda/client/pkg/model"
 func lemmaRetryAfterLostReplyKeepsForeignOnly(w *WiredDatatype, ppp *model.PushPullPack) {
 	w.excludeDuplicatedOperations(ppp)
 }
+
+// A duplicated reply (the same reply delivered a second time: its checkpoint is what the client's checkpoint has
+// already become), or one that is stale in its log position, hands NO operation to the datatype and leaves the
+// checkpoint where it is.
+//@ proof lemmaDuplicatedReplyAppliesNothing
+//@   mode wrap
+//@   props C07
+//@   requires w != nil && wiredWF(w) && ppp != nil && ppp.CheckPoint != nil && ppp.CheckPoint != w.checkPoint
+//@   requires w.checkPoint.Sseq < 4611686018427387904 && w.checkPoint.Cseq < 4611686018427387904 && len(ppp.Operations) < 1000000
+//@   requires ppp.CheckPoint.Sseq <= w.checkPoint.Sseq && ppp.CheckPoint.Cseq == w.checkPoint.Cseq
+//@   ensures[no-operation-is-applied-again] len(ppp.Operations) == 0
+//@   ensures[checkpoint-stays]              w.checkPoint.Sseq == old(w.checkPoint.Sseq) && w.checkPoint.Cseq == old(w.checkPoint.Cseq)
+//@   modifies *
+func lemmaDuplicatedReplyAppliesNothing(w *WiredDatatype, ppp *model.PushPullPack) {
+	w.excludeDuplicatedOperations(ppp)
+	w.syncCheckPoint(ppp.CheckPoint)
+}
